@@ -175,6 +175,7 @@ var c12MapRangeTable = map[string]string{
 }
 
 func runC12(c *core.Ctx) {
+	c.Rule("R11", "a subring is selected and assembled under one hold of the ring lock, so a cached shard never carries a newer topology stamp than its content (shared with C05.R12)", 3)
 	c.Rule("R1", "the shard is a function of ring content, identifier and size: seeded PRNG only; order-insensitive map iterations", 50)
 	c.Rule("R2", "without look-back the result is independent of the clock", 6)
 	c.Rule("R3", "read-only instances enter a shard only through the inclusion predicate, whose table is exact", 4)
@@ -299,6 +300,7 @@ func runC12(c *core.Ctx) {
 	c13Fills(c, pkg, "R7")
 	c13RefreshAll(c, pkg, "R8")
 	c13LowerBound(c, pkg, "R10")
+	c05Snapshot(c, pkg, "R11")
 	// ---- R9: no wrapping arithmetic on the requested size
 	for _, e := range []struct {
 		pkg  *packages.Package
